@@ -88,6 +88,8 @@ def main(ctx: Ctx) -> int:
                             c = 12.5
                     sh = ""
                     r1 = "CH"
+                    if (fmt, code) in (("kida", 2), ("umist", "PH"), ("leeds", 4), ("uclchem", "PHOTON"), ("naunet", 102)) and rng.random() < 0.5:
+                        r1 = rng.choice(["C", "O", "OH"])      # atoms whose names are contained in the names of the self-shielded molecules
                     if (fmt, code) in (("leeds", 4), ("uclchem", "PHOTON")) and rng.random() < 0.4:
                         r1 = rng.choice(["H2", "CO", "N2"] if fmt == "leeds" else ["CO"])
                         sh = r1
@@ -173,6 +175,9 @@ def main(ctx: Ctx) -> int:
                         got, want = cexpr.evaluate(ast, env, funcs), fn(env)
                     except (OverflowError, ZeroDivisionError, ValueError):
                         continue
+                    except KeyError:      # the emitted expression reads a quantity the law does not depend on
+                        agree = False
+                        break
                     if not (got == want or abs(got - want) <= 1e-12 * max(abs(got), abs(want)) or (math.isinf(got) and math.isinf(want))):
                         agree = False
                         break
